@@ -845,6 +845,28 @@ class Sub(Kind):
 
 
 @register
+class SubBorrowIn(Kind):
+    name = 'SubBorrowIn'
+    tags = ('c07', 'arith', 'noverilog')
+
+    def plan(self, rng, pool):
+        a, aw = pool.any(1, 66)
+        if rng.random() < 0.6:
+            b, bw = pool.pick(aw)
+        else:
+            b, bw = pool.any(1, 66)
+        rw = rng.randint(aw, max(aw, bw) + 2)      # the constructor asserts width(r) >= width(a)
+        return {}, [a, b, pool.pick(1)[0]], [rw]
+
+    def build(self, parent, nm, ins, outs, p):
+        from py4hw.logic.arithmetic import SubBorrowIn as _S
+        return _S(parent, nm, ins[0], ins[1], outs[0], ins[2])
+
+    def outs(self, p, st, iv, iw, ow):
+        return [M(iv[0] - iv[1] - iv[2], ow[0])]
+
+
+@register
 class SignedSub(Kind):
     name = 'SignedSub'
     tags = ('c07', 'arith')
